@@ -12,7 +12,11 @@ EXPLANATION = ("O1 in the operation issue point, when the handle's timeout is So
 TRUSTED = ['tokio::time::timeout semantics', 'tokio scheduler']
 UNDECIDED = ['that the timer fires at the deadline', 'all orderings of arrival vs deadline']
 ASSUMPTIONS = []
-SHARED = [('C01', ('R5.',), 'O4.late-reply-discarded'), ('C16', ('A2.splices-new-stream', 'A2.follow-up-handle'), 'O5.paged-follow-up-keeps-timeout-and-id')]      # after the scrub the ID is routed nowhere: an unmatched frame must reach nobody
+SHARED = [('C01', ('R5.',), 'O4.late-reply-discarded'), ('C16', ('A2.splices-new-stream', 'A2.follow-up-handle'), 'O5.paged-follow-up-keeps-timeout-and-id'),
+          # "an operation given a timeout returns a timeout error": the Timeout that next_inner raises for a silent peer has to get through
+          # every adapter of the chain to the caller of next() / search() as that error - an adapter that answers Ok(None) (or goes on)
+          # on a path on which its upstream next() failed turns the timeout into a regular end of the search
+          ('C10', ('Q8.adapter-passes-upstream-error', 'Q4.entries-only.end-passthrough'), 'O7.timeout-error-passes-the-adapters')]      # after the scrub the ID is routed nowhere: an unmatched frame must reach nobody
 
 TIMEOUT = 'tokio::time::timeout::timeout'
 SELF = ('param', 'self')
